@@ -142,7 +142,7 @@ fn c10_case(cx: &mut Ctx, rng: &mut Rng, max_ops: usize) {
             let mut l = format!("db nn {count}");
             let na = rng.below(3);
             for _ in 0..na {
-                if rng.chance(6) {
+                if rng.chance(14) {
                     l.push_str(" -");
                 } else {
                     l.push_str(&format!(" {}", pool_alias(rng)));
@@ -160,8 +160,8 @@ fn c10_case(cx: &mut Ctx, rng: &mut Rng, max_ops: usize) {
             }
         } else if r < 48 {
             // single alias insert: re-aliasing, stealing, edge ids, empty alias, dead ids, alias-as-id
-            let id = id_token(rng, &cx.orc, 12, 8, 10);
-            let alias = if rng.chance(8) { "-".to_string() } else { pool_alias(rng) };
+            let id = id_token(rng, &cx.orc, 22, 8, 10);
+            let alias = if rng.chance(15) { "-".to_string() } else { pool_alias(rng) };
             format!("db ia 1 {id} {alias}")
         } else if r < 58 {
             // several pairs in one query. A pair that fails at run time (unknown id) after an earlier
@@ -185,8 +185,8 @@ fn c10_case(cx: &mut Ctx, rng: &mut Rng, max_ops: usize) {
                     als.push(hex_encode(&format!("fresh{}-{}", n, j)));
                 } else {
                     // literal ids of live elements only: they resolve whatever the earlier pairs did
-                    ids.push(id_token(rng, &cx.orc, 8, 0, 0));
-                    als.push(if rng.chance(6) { "-".to_string() } else { pool_alias(rng) });
+                    ids.push(id_token(rng, &cx.orc, 15, 0, 0));
+                    als.push(if rng.chance(12) { "-".to_string() } else { pool_alias(rng) });
                 }
             }
             if rng.chance(5) {
@@ -195,11 +195,40 @@ fn c10_case(cx: &mut Ctx, rng: &mut Rng, max_ops: usize) {
             format!("db ia {} {} {}", ids.len(), ids.join(" "), als.join(" "))
                 .trim_end()
                 .to_string()
-        } else if r < 64 {
-            let id = id_token(rng, &cx.orc, 10, 5, 10);
-            let alias = if rng.chance(8) { "-".to_string() } else { pool_alias(rng) };
+        } else if r < 61 {
+            // the validation must happen before the first change: earlier pairs take aliases that
+            // other nodes hold (or re-alias), a LATER pair is an empty alias or a literal edge id
+            let held: Vec<String> = cx.orc.a2i.keys().cloned().collect();
+            let edges = live_edges(&cx.orc);
+            let k = 2 + rng.below(2) as usize;
+            let mut ids = vec![];
+            let mut als = vec![];
+            for j in 0..k {
+                if j + 1 == k {
+                    match rng.pick(&edges) {
+                        Some(e) if rng.chance(50) => {
+                            ids.push(format!("i{e}"));
+                            als.push(pool_alias(rng));
+                        }
+                        _ => {
+                            ids.push(id_token(rng, &cx.orc, 0, 0, 0));
+                            als.push("-".to_string());
+                        }
+                    }
+                } else {
+                    ids.push(id_token(rng, &cx.orc, 0, 0, 0));
+                    als.push(match rng.pick(&held) {
+                        Some(a) if rng.chance(70) => a.clone(),
+                        _ => pool_alias(rng),
+                    });
+                }
+            }
+            format!("db ia {} {} {}", ids.len(), ids.join(" "), als.join(" "))
+        } else if r < 66 {
+            let id = id_token(rng, &cx.orc, 20, 5, 10);
+            let alias = if rng.chance(15) { "-".to_string() } else { pool_alias(rng) };
             format!("db na {id} {alias}")
-        } else if r < 74 {
+        } else if r < 75 {
             let mut l = "db ra".to_string();
             for _ in 0..(1 + rng.below(2)) {
                 l.push_str(&format!(" {}", pool_alias(rng)));
